@@ -216,6 +216,7 @@ Definition FMA (zu : bool) (z x y u : Dec) : ores :=
       let z0 := with_neg z0 (xorb (neg x) (neg y)) in
       match dform x, dform y with
       | Ffinite, Ffinite =>
+          if form_eqb (dform u) Finf then Set_ zu z u else
           match umul (with_prec z0 MaxPrec) x y with
           | None => CrashR
           | Some z0' =>
